@@ -510,3 +510,7 @@ func (w *World) CheckInvariants(o Obs, checkDead bool, viol func(clause, msg str
 		}
 	}
 }
+
+func storeVerifKeys(h *vk.H) (hashK, heightK, headK, tailK string) {
+	return store.VerifKeys[*vk.H](h)
+}
